@@ -11,6 +11,7 @@ debian.debian_support (no source hook); tempfile.tempdir points at a harness-own
 download temp file is visible.
 """
 import builtins
+import re
 import gzip
 import hashlib
 import itertools
@@ -257,8 +258,18 @@ def path_taken(versions, start, rfault):
     return "full"
 
 
+def scrub(text):
+    """scratch directory and temp-file names differ between runs; observations must not"""
+    text = re.sub(r"/[^ '\"]*verif-c19r?-[A-Za-z0-9_]+", "<scratch>", str(text))
+    return re.sub(r"tmp[A-Za-z0-9_]{6,10}", "tmp<random>", text)
+
+
 def judge(versions, start, rfault, fsfail, res):
     """-> list of (sig, expected, observed)"""
+    return [(s_, scrub(e_), scrub(o_)) for s_, e_, o_ in _judge(versions, start, rfault, fsfail, res)]
+
+
+def _judge(versions, start, rfault, fsfail, res):
     cur = versions[-1]
     exc, env = res["exc"], res["env"]
     bad = []
@@ -277,7 +288,8 @@ def judge(versions, start, rfault, fsfail, res):
     if res["leftovers"] != want_left:
         bad.append(("update/leftover-file/" + ftag, want_left, res["leftovers"]))
     if res["tmp_leftovers"]:
-        bad.append(("update/leftover-tempfile/" + ftag, [], res["tmp_leftovers"]))
+        bad.append(("update/leftover-tempfile/" + ftag, "no file left in the temp directory",
+                    "%d file(s) left" % len(res["tmp_leftovers"])))
     if bad:
         return bad
     # liveness / must-raise
